@@ -69,7 +69,13 @@ impl<'a> PrettyPrinter<'a> {
                 import_items_nodes.push(node);
             }
         }
-        if import_items_nodes.is_empty() {
+        // An empty pair of parentheses holds no item either.
+        if import_items_nodes.iter().all(|node| {
+            matches!(
+                node.kind(),
+                SyntaxKind::LeftParen | SyntaxKind::RightParen | SyntaxKind::Space
+            )
+        }) {
             return prefix_doc;
         }
 
